@@ -336,3 +336,63 @@ DOMAINS = {
     "f_hold": {"nesting": (2, 1), "v": (1, 2)},
 }
 ENV_DOMAIN = {"f_env": {"VERIF_X": (None, "1", "2")}}
+
+
+# -- generated dependency graphs for C11 ---------------------------------------------------------
+
+def f_needgraph(needs=("DEFAULT", "DEFAULT"), edges=((), ()), amended=0, subplan=0):
+    """Step i writes o{i} (o0 in the root, later ones under d/) from src.txt and from the outputs
+    of the earlier steps listed in edges[i]."""
+    def out(i):
+        return "o0.txt" if i == 0 else f"d/o{i}.txt"
+
+    steps = []
+    scripts = {}
+    for i, need in enumerate(needs):
+        inps = [out(j) for j in edges[i]]
+        if amended and inps and i == len(needs) - 1:
+            name = f"s{i}.py"
+            scripts[name] = script([["amend", {"inp": inps}], ["write", out(i), ["src.txt", *inps]]])
+            steps.append(["run", f"./{name}", {"inp": ["src.txt"], "out": [out(i)],
+                                              "optional": need == "OPTIONAL"}])
+        else:
+            steps.append(tr(f"N{i}", ["src.txt", *inps], [out(i)], need=need))
+    files = {"src.txt": "src\n", **scripts}
+    statics = ["static", "src.txt", *sorted(scripts)]
+    if subplan:
+        files["plan.py"] = script([[*statics, "sub.py"], steps[0], ["plan", "./sub.py"]])
+        files["sub.py"] = script(steps[1:])
+    else:
+        files["plan.py"] = script([statics, *steps])
+    return files
+
+
+# -- F-fail (C19) --------------------------------------------------------------------------------
+
+def f_fail(kind="fail"):
+    if kind == "fail":
+        prog = [["static", "src.txt"], ["step", "false", {"inp": ["src.txt"], "out": ["f.txt"]}],
+                tr("D", ["f.txt"], ["d.txt"]), tr("I", ["src.txt"], ["i.txt"]), tr("J", ["i.txt"], ["j.txt"])]
+        return {"plan.py": script(prog), "src.txt": "s\n"}
+    if kind == "missing_input":
+        prog = [tr("M", ["nowhere.txt"], ["m.txt"]), tr("N", ["m.txt"], ["n.txt"]), tr("I", [], ["i.txt"])]
+        return {"plan.py": script(prog)}
+    if kind == "resource":
+        prog = [tr("R", [], ["r.txt"], resources={"gpu": 1}), tr("S", ["r.txt"], ["s.txt"]),
+                tr("T", [], ["t.txt"], resources={"cpu": 5}), tr("I", [], ["i.txt"])]
+        return {"plan.py": script(prog)}
+    if kind == "cycle":
+        return {
+            "plan.py": script([["static", "s1.py", "s2.py"],
+                               ["run", "./s1.py", {"out": ["o1.txt"]}], ["run", "./s2.py", {"out": ["o2.txt"]}]]),
+            "s1.py": script([["amend", {"inp": ["o2.txt"]}], ["write", "o1.txt", ["o2.txt"]]]),
+            "s2.py": script([["amend", {"inp": ["o1.txt"]}], ["write", "o2.txt", ["o1.txt"]]]),
+        }
+    if kind == "defer_forever":
+        return {
+            "plan.py": script([["static", "s.py"], ["run", "./s.py", {"out": ["o.txt"]}], tr("I", [], ["i.txt"])]),
+            "s.py": script([["amend", {"inp": ["never.txt"]}], ["write", "o.txt", []]]),
+        }
+    if kind == "plan_fails":
+        return {"plan.py": script([tr("I", [], ["i.txt"]), ["exit", 3]])}
+    raise ValueError(kind)
